@@ -37,20 +37,55 @@ Fixpoint zmem (c : Z) (l : list Z) : bool :=
 
 Definition ascii_lower (c : Z) : Z := if between 65 90 c then c + 32 else c.
 
-(* non-ASCII code points of the generator alphabet (all case-less):
-   U+4E2D CJK, U+0663 ARABIC-INDIC DIGIT THREE are \w (the latter also \d);
-   U+0085, U+00A0, U+2003 are \s; U+20AC, U+2014, U+1F600, U+D800 are none. *)
-Definition extra_word : list Z := [20013; 1635].
+(* non-ASCII code points of the generator alphabet.
+   Case-less ones: U+4E2D CJK, U+0663 ARABIC-INDIC DIGIT THREE are \w (the
+   latter also \d); U+0085, U+00A0, U+2003 are \s; U+20AC, U+2014, U+1F600,
+   U+D800 are none.
+   DECORATIONS of a signature occurrence (round 6):
+   - combining marks and invisible format characters - U+0300 U+0301 U+0303
+     U+0308 U+0323 U+0327 (Mn), U+20DD (Me), U+3099, U+FE0F (Mn), U+200B U+200D
+     U+00AD (Cf): case-less, not \w, not \s, not \d, i.e. for str.lower and
+     for sre they are ordinary non-word characters (nothing here composes them
+     with their neighbour);
+   - compatibility characters: FULLWIDTH digits U+FF10-FF19 (\w, \d), FULLWIDTH
+     capitals U+FF21-FF3A (\w, lower = +32) and small letters U+FF41-FF5A (\w),
+     U+3000 IDEOGRAPHIC SPACE (\s), U+FF3F, U+FF05 (none), U+FB01 LATIN SMALL
+     LIGATURE FI, U+1D41A MATHEMATICAL BOLD SMALL A, U+00B2 SUPERSCRIPT TWO,
+     U+2170 SMALL ROMAN NUMERAL ONE (\w, their own lower), U+24D0 CIRCLED SMALL
+     A (none), and U+212A KELVIN SIGN: \w and lower = 'k' - the one compatibility
+     character that IS a case variant of an ASCII letter for str.lower and sre;
+   - precomposed letters U+00E9, U+015B, U+1E31 (\w, lower-case) and U+00C9,
+     U+1E30 (\w, lower = U+00E9, U+1E31).
+   (U+017F, U+0130, U+0131 are NOT in the alphabet: sre's IGNORECASE equates them
+   with s / i while str.lower does not - see TRUSTED in harness/c10.py.) *)
+Definition extra_word : list Z :=
+  [20013; 1635; 8490; 64257; 119834; 178; 8560; 233; 201; 347; 7729; 7728].
 Definition extra_digit : list Z := [1635].
-Definition extra_space : list Z := [133; 160; 8195].
+Definition extra_space : list Z := [133; 160; 8195; 12288].
 
-Definition py_digit (c : Z) : bool := between 48 57 c || zmem c extra_digit.
+Definition fw_digit (c : Z) : bool := between 65296 65305 c.
+Definition fw_upper (c : Z) : bool := between 65313 65338 c.
+Definition fw_lower (c : Z) : bool := between 65345 65370 c.
+
+(* str.lower() of one code point, on the alphabet.  (ASCII first: most of every
+   content is ASCII, and the matcher asks these questions once per step.) *)
+Definition py_fold (c : Z) : Z :=
+  if c <? 128 then ascii_lower c
+  else if fw_upper c then c + 32
+  else if c =? 8490 then 107
+  else if c =? 201 then 233
+  else if c =? 7728 then 7729
+  else c.
+
+Definition py_digit (c : Z) : bool :=
+  if c <? 128 then between 48 57 c else fw_digit c || zmem c extra_digit.
 Definition py_word (c : Z) : bool :=
-  between 48 57 c || between 65 90 c || between 97 122 c || (c =? 95) || zmem c extra_word.
+  if c <? 128 then between 48 57 c || between 65 90 c || between 97 122 c || (c =? 95)
+  else fw_digit c || fw_upper c || fw_lower c || zmem c extra_word.
 Definition py_space (c : Z) : bool :=
-  between 9 13 c || between 28 32 c || zmem c extra_space.
+  if c <? 128 then between 9 13 c || between 28 32 c else zmem c extra_space.
 
-Definition py_cc : charcls := mkCC ascii_lower py_word py_space py_digit.
+Definition py_cc : charcls := mkCC py_fold py_word py_space py_digit.
 
 (* ---- strings ----------------------------------------------------------- *)
 
